@@ -647,4 +647,12 @@ example : (semRun Sem.init [.arrive 1, .arrive 2, .tick, .arrive 3, .tick, .tick
 
 example : (mqOffer 80 60 ⟨-(70 * nano), 80 * 60 * nano, 0⟩ 5 false).2 = .dropped := by decide +kernel
 
+/-- **a caller that gives up while it waits changes nothing for the others**: the wrapper debits the
+    bucket at admission and never credits it back, so the due times of the callers that stay are a
+    sub-list of a non-decreasing list - whichever callers give up, whenever, the frames that are
+    written keep the order in which they were offered (`keep` marks the callers that stay) -/
+theorem dues_sorted_after_cancellations (R C : Nat) (rs : List Req) (b : Bucket) (h : Timely R C b rs)
+    (stay : List Nat) (hs : stay.Sublist (dues R C b rs)) : stay.Pairwise (· ≤ ·) :=
+  List.Pairwise.sublist hs (dues_sorted R C rs b h)
+
 end Ramses.C11
